@@ -1,6 +1,6 @@
 SPECIFICATION Spec
 CONSTANTS
-  MaxOps = 4
+  MaxOps = 3
   UnitKinds = {"getp"}
   MaxPos = 2
   Sigs = {1, 2}
